@@ -34,40 +34,52 @@ sexp sexp_json_write_exception (sexp ctx, sexp self, const char* msg, sexp obj) 
   return res;
 }
 
+#define JSON_NUMBER_MAX_LEN 1024
+
+/* Collects the text of a JSON number (-? digits [. digits] [(e|E) [+-] digits]) and converts it: */
+/* integer literals exactly (fixnum or bignum), everything else with strtod (correctly rounded). */
 sexp json_read_number (sexp ctx, sexp self, sexp in) {
-  double res = 0, scale = 1;
-  int sign = 1, inexactp = 0, scale_sign = 1, ch;
+  char buf[JSON_NUMBER_MAX_LEN+1];
+  int i = 0, inexactp = 0, ch;
+  sexp res;
+  sexp_gc_var1(str);
   ch = sexp_read_char(ctx, in);
-  if (ch == '+') {
+  if (ch == '+' || ch == '-') {
+    if (ch == '-') buf[i++] = ch;
     ch = sexp_read_char(ctx, in);
-  } else if (ch == '-') {
-    ch = sexp_read_char(ctx, in);
-    sign = -1;
   }
-  for ( ; ch != EOF && isdigit(ch); ch = sexp_read_char(ctx, in))
-    res = res * 10 + ch - '0';
-  if (ch == '.') {
+  for ( ; ch != EOF && isdigit(ch) && i < JSON_NUMBER_MAX_LEN; ch = sexp_read_char(ctx, in))
+    buf[i++] = ch;
+  if (ch == '.' && i < JSON_NUMBER_MAX_LEN) {
     inexactp = 1;
-    for (ch = sexp_read_char(ctx, in); isdigit(ch); scale *= 10, ch = sexp_read_char(ctx, in))
-      res = res * 10 + ch - '0';
-    res /= scale;
-  } else if (ch == 'e') {
+    buf[i++] = ch;
+    for (ch = sexp_read_char(ctx, in); ch != EOF && isdigit(ch) && i < JSON_NUMBER_MAX_LEN; ch = sexp_read_char(ctx, in))
+      buf[i++] = ch;
+  }
+  if ((ch == 'e' || ch == 'E') && i < JSON_NUMBER_MAX_LEN) {
     inexactp = 1;
+    buf[i++] = ch;
     ch = sexp_read_char(ctx, in);
-    if (ch == '+') {
+    if ((ch == '+' || ch == '-') && i < JSON_NUMBER_MAX_LEN) {
+      buf[i++] = ch;
       ch = sexp_read_char(ctx, in);
-    } else if (ch == '-') {
-      ch = sexp_read_char(ctx, in);
-      scale_sign = -1;
     }
-    for (scale=0; isdigit(ch); ch = sexp_read_char(ctx, in))
-      scale = scale * 10 + ch - '0';
-    res *= pow(10.0, scale_sign * scale);
+    for ( ; ch != EOF && isdigit(ch) && i < JSON_NUMBER_MAX_LEN; ch = sexp_read_char(ctx, in))
+      buf[i++] = ch;
   }
   if (ch != EOF) sexp_push_char(ctx, ch, in);
-  return (inexactp || fabs(res) > SEXP_MAX_FIXNUM) ?
-    sexp_make_flonum(ctx, sign * res) :
-    sexp_make_fixnum(sign * res);  /* always return inexact? */
+  buf[i] = '\0';
+  if (i >= JSON_NUMBER_MAX_LEN)
+    return sexp_json_read_exception(ctx, self, "number too long in json", in, SEXP_NULL);
+  if (i == 0 || !isdigit((unsigned char)buf[i-1]) || (buf[0] == '-' && !isdigit((unsigned char)buf[1])))
+    return sexp_json_read_exception(ctx, self, "invalid number in json", in, SEXP_NULL);
+  if (inexactp)
+    return sexp_make_flonum(ctx, strtod(buf, NULL));
+  sexp_gc_preserve1(ctx, str);
+  str = sexp_c_string(ctx, buf, i);
+  res = sexp_string_to_number(ctx, str, SEXP_TEN);
+  sexp_gc_release1(ctx);
+  return res;
 }
 
 sexp json_read_literal (sexp ctx, sexp self, sexp in, char* name, sexp value) {
